@@ -386,6 +386,66 @@ def walk(ctx, phase):
                 if E.SCSI_STATUS[val] != name:
                     ctx.fail("C14:status_reverse.%s" % name, "SCSI_STATUS[%02Xh] is %r after other enumerations were asked" % (val, E.SCSI_STATUS[val]), {"name": name})
 
+    # a vendor quirk applied to one table's entry (its value set through the public property, a service action added) stays in that
+    # table: the same name in the other four tables keeps its T10 value.  Everything is restored afterwards.
+    for setname in O.SETS:
+        enum = getattr(E, setname)
+        for key in enum.keys:
+            oc = getattr(enum, key)
+            others = [(o, getattr(getattr(E, o), key)) for o in O.SETS if o != setname and key in getattr(E, o).keys]
+            if not others:
+                continue
+            before = [(o, x.value, sorted(x.serviceaction.keys)) for o, x in others]
+            old_value = oc.value
+            added = False
+            try:
+                oc.value = (old_value ^ 0x5A) & 0xFF
+                try:
+                    oc.serviceaction.add("VMON_QUIRK", 0x1F)
+                    added = True
+                except Exception:  # noqa: BLE001
+                    pass
+                after = [(o, x.value, sorted(x.serviceaction.keys)) for o, x in others]
+                ctx.count("table_entry_isolation_checks")
+                if after != before:
+                    o_bad = next(o for (o, *_a), (_o2, *_b) in zip(after, before) if _a != _b)
+                    ctx.fail("C14:table_entries_shared", "changing %s.%s (value / service actions) changed %s.%s as well" % (setname, key, o_bad, key), {"table": setname, "name": key, "other": o_bad})
+            finally:
+                oc.value = old_value
+                if added:
+                    try:
+                        oc.serviceaction.remove("VMON_QUIRK")
+                    except Exception:  # noqa: BLE001
+                        pass
+
+    # every facade method on every table, also the tables that do not list the command: either nothing is sent, or what is sent
+    # carries the T10 operation code (and service action) of that command
+    from vmon import harness
+    from vmon.props.c13 import required_args
+    from vmon.spec import cdb as S, dataout as DO
+    import random as _random
+
+    frng = _random.Random("c14facade:%s" % phase)
+    for setname in O.SETS:
+        for c in S.COMMANDS.values():
+            if not c.facade:
+                continue
+            dev = harness.Recorder(getattr(E, setname))
+            s = harness.make_facade(dev, 512)
+            a = dict(required_args(c, frng))
+            try:
+                harness.facade_call(c, s, DO.fresh(a) if c.custom else dict(a))
+            except Exception:  # noqa: BLE001
+                pass
+            ctx.count("facade_methods_on_tables")
+            for sent, *_r in dev.calls:
+                want_sa = c.sa[1] if c.sa else None
+                got_sa = sent.cdb[1] & 0x1F if c.sa else None
+                if sent.cdb[0] != c.op or got_sa != want_sa:
+                    ctx.fail("C14:facade_sends_other_code.%s.%s" % (setname, c.facade), "%s on the %s table sent operation code %02Xh%s, T10 assigns %02Xh%s to that command"
+                             % (c.facade, setname, sent.cdb[0], "" if got_sa is None else "/%02Xh" % got_sa, c.op, "" if want_sa is None else "/%02Xh" % want_sa),
+                             {"table": setname, "method": c.facade, "listed": setname in c.sets})
+
     # names: OpCode.name vs key (observation only)
     for setname in O.SETS:
         enum = getattr(E, setname)
